@@ -23,6 +23,8 @@ pub fn gram_opts(rng: &mut Rng, max_size: usize) -> GramOpts {
         size: rng.range(3, max_size),
         long_expr_pct: *rng.pick(&[5, 15, 15, 30]),
         max_expr_depth: *rng.pick(&[2, 3, 3, 4]),
+        anon_in_headers: rng.chance(1, 5),
+        anon_in_raise: rng.chance(1, 5),
         ..Default::default()
     }
 }
@@ -39,7 +41,14 @@ pub fn gram_case(rng: &mut Rng, max_size: usize, deco: &DecoOpts) -> WellFormed 
 /// 40 % seeds (incl. expected outputs), 60 % grammar programs
 pub fn well_formed(ctx: &Ctx, rng: &mut Rng, max_size: usize) -> WellFormed {
     if !ctx.seeds.is_empty() && rng.chance(2, 5) {
-        let s = rng.pick(&ctx.seeds);
+        let mut s = rng.pick(&ctx.seeds);
+        // a few data tests exercise lexically broken code (unterminated literals/comments,
+        // unknown characters): those are not well-formed programs
+        let mut tries = 0;
+        while tries < 8 && !lexically_sound(&s.text) {
+            s = rng.pick(&ctx.seeds);
+            tries += 1;
+        }
         WellFormed { text: s.text.clone(), name: s.name.clone(), prog: None, layout: None, seed_width: Some(s.width) }
     } else {
         let deco = match rng.below(4) {
@@ -122,4 +131,9 @@ pub fn cfg_hist(out: &mut CaseOut, cfg: &Cfg) {
     if !cfg.format_multiline_strings {
         out.count("cfg.no_mlstr_format");
     }
+}
+
+pub fn lexically_sound(text: &str) -> bool {
+    use crate::refscan::{self, RK};
+    !refscan::scan(text).iter().any(|t| t.unterminated || matches!(t.kind, RK::UntermStr | RK::Unknown))
 }
